@@ -451,6 +451,14 @@ static Outcome run_modexp(const Case &c) {
   o.cls(lz_class("pub", lzp));
   if (lzk || lzp) o.nontrivial = true;
   Lib pub[2], key[2];
+  // what a caller does with a value from the network: ask crypto_dh_sanitycheck first.  Whatever it answers, and whether it was asked at
+  // all, crypto_dh_compute is the same function of (y, x) afterwards (one case in two asks; the answer itself is judged in sub "sanity")
+  if ((pbt::fnv(x + y) >> 7) & 1) {
+    uint8_t *t = heap(y);
+    int sc = shim_dh_sanitycheck(t);
+    free(t);
+    o.cls(sc == 0 ? "sanity check (accepting) before compute" : "sanity check (rejecting) before compute");
+  }
   for (int i = 0; i < 2; i++) {
     blind_classes(o, x, rs[i]);
     pub[i] = lib_pub(x, {rs[i]});
